@@ -19,7 +19,9 @@ pub enum Ev {
     NewEpoch { sender: usize, fee: u128, collector_ok: bool },
     Claim { who: usize },
     SetGrace { admin: bool, g: u64 },
-    Stray { amount: u128 },                             // a plain bank transfer of the distribution asset to the DISTRIBUTOR (belongs to no epoch)
+    Stray { amount: u128 },
+    /// NewEpoch sent by the donor with `attach` of the distribution asset attached to the message (the coins belong to no epoch)
+    NewEpochWith { fee: u128, attach: u128 },                             // a plain bank transfer of the distribution asset to the DISTRIBUTOR (belongs to no epoch)
 }
 fn ev_json(t: u64, e: &Ev) -> Value {
     match e {
@@ -29,6 +31,7 @@ fn ev_json(t: u64, e: &Ev) -> Value {
         Ev::Claim { who } => json!({"t": t.to_string(), "op": "claim", "who": who}),
         Ev::SetGrace { admin, g } => json!({"t": t.to_string(), "op": "set_grace", "admin": admin, "g": g}),
         Ev::Stray { amount } => json!({"t": t.to_string(), "op": "transfer_to_distributor", "amount": amount.to_string()}),
+        Ev::NewEpochWith { fee, attach } => json!({"t": t.to_string(), "op": "new_epoch_with_funds", "fee": fee.to_string(), "attached": attach.to_string()}),
     }
 }
 fn p128(v: &Value) -> u128 { v.as_str().and_then(|s| s.parse().ok()).unwrap_or(0) }
@@ -42,6 +45,7 @@ fn ev_from_json(v: &Value) -> Option<(u64, Ev)> {
         "claim" => Ev::Claim { who: us("who") },
         "set_grace" => Ev::SetGrace { admin: v["admin"].as_bool().unwrap_or(true), g: v["g"].as_u64().unwrap_or(1) },
         "transfer_to_distributor" => Ev::Stray { amount: p128(&v["amount"]) },
+        "new_epoch_with_funds" => Ev::NewEpochWith { fee: p128(&v["fee"]), attach: p128(&v["attached"]) },
         _ => return None,
     }))
 }
@@ -109,14 +113,16 @@ pub struct Exec {
     pub n_epochs: u64, pub n_claims_paid: u64, pub n_rollover_nonzero: u64, pub grace_changes: u64,
     grace0: u64,
     pub strays: u128,
+    pub probe_kind: Option<&'static str>,
 }
 impl Exec {
     pub fn new(grace: u64, growth: u128) -> Exec {
         let cfg = EpochCfg { grace_period: grace, growth_rate: growth, unbonding_period: 1_000, ..Default::default() };
         Exec { w: deploy_epoch_world(cfg).expect("deploy"), terms: vec![], obs: vec![], history: vec![], paid: Default::default(),
-               n_epochs: 0, n_claims_paid: 0, n_rollover_nonzero: 0, grace_changes: 0, grace0: grace, strays: 0 }
+               n_epochs: 0, n_claims_paid: 0, n_rollover_nonzero: 0, grace_changes: 0, grace0: grace, strays: 0, probe_kind: None }
     }
     pub fn replay_json(&self) -> Value {
+        if let Some(k) = self.probe_kind { return json!({"kind": k, "script": "two bonders; 270 epochs one day apart with fees 1000+k; claims every 40 epochs and after each of the last 20", "last_events": self.history}); }
         json!({"kind": "distributor_history", "grace_period": self.grace0, "growth_rate": self.w.cfg.growth_rate.to_string(), "users": U, "events": self.history})
     }
     pub fn exec(&mut self, out: &mut Out, t: u64, e: &Ev) {
@@ -169,6 +175,13 @@ impl Exec {
                 let r = run_catch(|| self.w.set_grace(if *admin { "owner" } else { "alice" }, *g).map(|_| ()), classify);
                 (format!("DSetGrace {} {}", coqbool(*admin), g), r, 0)
             }
+            Ev::NewEpochWith { fee, attach } => {
+                if *fee > 0 { let _ = self.w.feed_collector("donor", *fee); }
+                let forwarded = self.w.bal(self.w.collector.as_str(), DIST);
+                let (d, a) = (self.w.distributor.clone(), *attach);
+                let r = run_catch(|| self.w.app.execute_contract(Addr::unchecked("donor"), d.clone(), &fd::ExecuteMsg::NewEpoch {}, &[coin(a, DIST)]).map(|_| ()), |_e| E_OTHER);
+                (format!("DNewEpochF true {} {}", forwarded, attach), r, 0)
+            }
             Ev::Stray { amount } => {
                 let (d, a) = (self.w.distributor.clone(), *amount);
                 let r = run_catch(|| self.w.app.send_tokens(Addr::unchecked("donor"), d.clone(), &[coin(a, DIST)]).map(|_| ()), |_e| E_OTHER);
@@ -184,9 +197,15 @@ impl Exec {
             if after != before { out.monitor_fail("C09", "a rejected call changed the ledgers or the balance", replay.clone()); }
         } else {
             match e {
-                Ev::NewEpoch { .. } => {
+                Ev::NewEpoch { .. } | Ev::NewEpochWith { .. } => {
                     self.n_epochs += 1;
-                    let fee = after.bal - before.bal;
+                    let attach = if let Ev::NewEpochWith { attach, .. } = e { *attach } else { 0 };
+                    self.strays += attach;
+                    if after.epochs.len() != before.epochs.len() + 1 || after.bal < before.bal + attach {
+                        out.monitor_fail("C09", &format!("an accepted NewEpoch left {} stored epochs where there were {} (or the balance fell)", after.epochs.len(), before.epochs.len()), replay.clone());
+                        return;
+                    }
+                    let fee = after.bal - before.bal - attach;
                     let g = before.grace as usize;
                     let new = after.epochs[0];
                     // the expiring epoch = oldest of the last `grace` epochs (if that many exist)
@@ -202,6 +221,7 @@ impl Exec {
                     }
                 }
                 Ev::Claim { who } => {
+                    if after.epochs.len() != before.epochs.len() { out.monitor_fail("C09", "a claim changed the number of stored epochs", replay.clone()); return; }
                     let mut d_av: i128 = 0; let mut d_cl: i128 = 0;
                     let old_cursor = before.cursors[*who];
                     for (i, old) in before.epochs.iter().enumerate() {
@@ -235,7 +255,7 @@ impl Exec {
         { let sum_av: u128 = after.epochs.iter().map(|e| nz(e.3)).sum();
           out.monitor_evals += 1;
           if after.bal != sum_av + self.strays { out.monitor_fail("C09", &format!("the distributor holds {} but the available amounts sum to {} and plain transfers added {}", after.bal, sum_av, self.strays), replay.clone()); } }
-        let kind = match e { Ev::NewEpoch { .. } => "new_epoch", Ev::Claim { .. } => "claim", Ev::Stray { .. } => "env:transfer_to_distributor", _ => "set_grace" };
+        let kind = match e { Ev::NewEpoch { .. } => "new_epoch", Ev::NewEpochWith { .. } => "new_epoch_with_funds", Ev::Claim { .. } => "claim", Ev::Stray { .. } => "env:transfer_to_distributor", _ => "set_grace" };
         out.count(&format!("{}:{}", kind, match &r { Outcome::Ok(_) => if payout > 0 { "ok_paid" } else { "ok" }, Outcome::Err(_) => "err", Outcome::Panic(_) => "panic" }));
         self.terms.push(format!("({}, {})", t, term));
         let mut o = obs(&r, |_| vec![]);
@@ -308,6 +328,12 @@ fn corpus(out: &mut Out) {
             (t0 + 3 * d, Ev::NewEpoch { sender: 1, fee: 1, collector_ok: true }),
             (t0 + 3 * d + s, Ev::Claim { who: 0 }),
             (t0 + 3 * d + s, Ev::Claim { who: 1 }),
+            (t0 + 4 * d, Ev::NewEpochWith { fee: 100_000, attach: 50_000 }),
+            (t0 + 4 * d, Ev::NewEpochWith { fee: 0, attach: 7 }),                 // early: refused, the coins stay with the sender
+            (t0 + 5 * d, Ev::NewEpoch { sender: 1, fee: 100_000, collector_ok: true }),
+            (t0 + 5 * d + s, Ev::Claim { who: 0 }),
+            (t0 + 6 * d, Ev::NewEpoch { sender: 1, fee: 0, collector_ok: true }),
+            (t0 + 6 * d + s, Ev::Claim { who: 1 }),
         ]),
     ];
     for (grace, growth, evs) in hs {
@@ -333,6 +359,14 @@ fn gen_history(out: &mut Out, rng: &mut Rng, transfers: bool) {
     let mut cur_grace = grace;
     while made < target_epochs && steps < 80 {
         steps += 1;
+        if transfers && rng.chance(1, 9) {
+            // the next epoch, created by a message that carries coins
+            t = (GENESIS_DEFAULT + made * d).max(t);
+            let before = x.w.q_current_epoch().id.u64();
+            x.exec(out, t, &Ev::NewEpochWith { fee: match rng.below(3) { 0 => 0, _ => magnitude(rng, 50) }, attach: match rng.below(3) { 0 => 1, 1 => 50_000, _ => magnitude(rng, 50) } });
+            if x.w.q_current_epoch().id.u64() > before { made += 1; }
+            continue;
+        }
         if transfers && rng.chance(1, 6) {
             t += 1;
             x.exec(out, t, &Ev::Stray { amount: match rng.below(4) { 0 => 0, 1 => 1, 2 => 1 + rng.below128(1_000_000), _ => magnitude(rng, 60) } });
@@ -397,6 +431,7 @@ fn replay(args: &Args, path: &str) {
 pub fn run(args: &Args) {
     if let Some(p) = &args.replay {
         let k = replay_kind(p);
+        if k == "long_run_probe" { let mut o = Out::new(&args.out); replay_probe(&mut o, &mut |o| long_run_probe(o)); }
         if k == "migration_probe" { let mut o = Out::new(&args.out); replay_probe(&mut o, &mut |o| migration_probe(o)); }
         if k == "distributor_distribution_asset_change" { let mut o = Out::new(&args.out); replay_probe(&mut o, &mut |o| distribution_asset_change_probe(o)); }
         replay(args, p); return;
@@ -409,11 +444,32 @@ pub fn run(args: &Args) {
     corpus(&mut out);
     migration_probe(&mut out);
     distribution_asset_change_probe(&mut out);
+    long_run_probe(&mut out);
     for _ in 0..args.n { gen_history(&mut out, &mut rng, false); }
     // histories in which anybody also sends the distribution asset straight to the distributor (own generator state: the histories above stay what they were)
     let mut rng2 = Rng::new(args.seed ^ 0x5742_4159);
     for _ in 0..(args.n / 4).max(10) { gen_history(&mut out, &mut rng2, true); }
     out.finish();
+}
+
+
+/// 270 epochs in a row (ids pass 255 -> 256: one byte of the storage key is no longer enough), a bonder claiming now and then. The
+/// history is judged by the monitors only (its model term would be quadratic in size): every accepted NewEpoch adds exactly one stored
+/// epoch, the ledger identities and the balance identity hold after every call.
+fn long_run_probe(out: &mut Out) {
+    let (t0, d, s) = (GENESIS_DEFAULT, DAY_NS, 1_000_000_000u64);
+    let mut x = Exec::new(2, DEC_ONE);
+    x.probe_kind = Some("long_run_probe");
+    x.exec(out, t0, &Ev::Bond { who: 0, denom: 0, amount: 1_000 });
+    x.exec(out, t0, &Ev::Bond { who: 1, denom: 1, amount: 3_000 });
+    for k in 0..270u64 {
+        let before = out.monitor_failures.len();
+        x.exec(out, t0 + k * d, &Ev::NewEpoch { sender: (k % 4) as usize, fee: 1_000 + k as u128, collector_ok: true });
+        if k % 40 == 39 || k >= 250 { x.exec(out, t0 + k * d + s, &Ev::Claim { who: (k % 2) as usize }); }
+        if out.monitor_failures.len() > before { break; }
+        x.history.clear();        // the replay of this probe is the probe itself
+    }
+    out.count("probe:long_run_270_epochs");
 }
 
 /// four funded epochs (grace 3), one partly claimed; the clock is then several days past the end of the current epoch (epoch creation
